@@ -10,5 +10,8 @@ CONSTANTS
   BareCtlSend = FALSE
   KeepFoundBlock = FALSE
   SilentSeekHit = FALSE
+  EarlyReturnOnForeign = FALSE
+  KeepOnGet = FALSE
+  Foreign = {}
 INVARIANTS NoPanic DataIdentity ErrorsTrue NoStaleMapping CacheBounded Capacities NoLeak
 CHECK_DEADLOCK TRUE
